@@ -240,7 +240,7 @@ VARIANTS = {
         B("empty-digest-accepted", [("auth.py", "        if length < 1 or len(expected) != length or len(salt) != salt_length:", "        if len(expected) != length or len(salt) != salt_length:")], "C19.R6"),
         B("verify-skipped", [("auth.py", "            kdf.verify(key_material, expected)\n            result = True", "            result = True\n            kdf.verify(key_material, expected)")], "C19.R2"),
         B("type-check-dropped", [("auth.py", "        if not isinstance(password_hash, str):\n            raise TypeError(\"expected bytes received %s\" % type(password))\n", "")], "C19.R5"),
-        B("version-not-checked", [("auth.py", "        if kind != b'scrypt' or version != b\"1\":", "        if kind != b'scrypt' and version != b\"1\":")], "C19.R3"),
+        B("version-not-checked", [("auth.py", "        if kind != b'scrypt' or version != b\"1\":", "        if kind != b'scrypt' and version != b\"1\":")], "C19.R"),
     ],
     "C20": [
         B("dispatch-by-class-object", [("dispatch.py", "        T = type(msg)\n        if T.__name__ not in self.registered_events:\n            raise DispatchError(T.__name__)\n        self.registered_events[T.__name__](client, seqnum, msg)", "        T = type(msg)\n        if T not in self.registered_events:\n            raise DispatchError(T.__name__)\n        self.registered_events[T](client, seqnum, msg)")], "C20.R1"),
